@@ -5,6 +5,7 @@ import ast
 from ..index import AnalysisError, unparse, iter_own_nodes
 from ..contain import reentry_edges, failure_sites, protecting_handler, narrow_handlers
 from ..cfg import calls_in_node
+from ..framework import stores_to_name, assigned_values
 from . import common
 
 EXPLANATION = (
@@ -16,6 +17,7 @@ EXPLANATION = (
     "not re-raise.  U(entry) must be empty apart from the confirmed table of API-misuse errors and of "
     "application callables run on the caller's behalf.  Every failure handler that re-enters logging "
     "(call-graph cycle through an except body or a deferred error loop) must have a recognised cut."
+    "  Keyword splats (C07.splat): a dictionary whose keys are chosen at run time (message fields, extractor results; key-domain analysis CONST/KW/DATA with an interprocedural fixed point over **kw parameters) is passed as **kwargs only to callees none of whose already-bound keyword-passable parameters it can name.  Generator-based application code: the wrapper's value/exception transparency rules of C15 are included."
 )
 RULE = ("obligation = (entry point, escaping source) | (core foreign site, containing handler) | "
         "(failure re-entry edge, cut); distinct = distinct constructs; non-trivial = at least one call "
@@ -430,8 +432,194 @@ def rule_builtin_extractors(chk):
     chk.instances("C07.extractors:library-registered extractors", n, 1)
 
 
+
+# ---------------------------------------------------------------------------
+# keyword splats: a dictionary whose keys are chosen at run time (the fields of a message, the result of an
+# exception extractor) is passed as **kwargs only to callees none of whose already-bound parameters it can name
+
+DATA = "DATA"
+
+
+def _decorators(g):
+    return {unparse(d).split(".")[-1] for d in getattr(g.node, "decorator_list", [])}
+
+
+def _kw_passable(g):
+    a = g.node.args
+    return [x.arg for x in a.args + a.kwonlyargs]
+
+
+def rule_splat(chk):
+    ctx = chk.ctx
+    p = ctx.p
+    funcs = [f for f in p.all_funcs()]
+    kwdata = {}  # FuncInfo -> True when an internal call site splats run-time-keyed data into its **kw parameter
+
+    def dom(f, e, depth=0, seen=None):
+        """CONST frozenset of keys, ("KW", f) or DATA."""
+        seen = seen or set()
+        if depth > 6:
+            return DATA
+        if isinstance(e, ast.Dict):
+            keys = set()
+            for k, v in zip(e.keys, e.values):
+                if k is None:
+                    d = dom(f, v, depth + 1, seen)
+                    if not isinstance(d, frozenset):
+                        return DATA
+                    keys |= d
+                else:
+                    ok, val = ctx.try_fold(f, k)
+                    if not ok or not isinstance(val, str):
+                        return DATA
+                    keys.add(val)
+            return frozenset(keys)
+        if isinstance(e, ast.Call):
+            if isinstance(e.func, ast.Name) and e.func.id == "dict" and not e.args:
+                if all(k.arg is not None for k in e.keywords):
+                    return frozenset(k.arg for k in e.keywords)
+                return DATA
+            if isinstance(e.func, ast.Name) and e.func.id == "dict" and len(e.args) == 1 and not e.keywords:
+                return dom(f, e.args[0], depth + 1, seen)
+            if isinstance(e.func, ast.Attribute) and e.func.attr == "copy" and not e.args:
+                return dom(f, e.func.value, depth + 1, seen)
+            tg = ctx.cg.typer.resolve_call(f, e)
+            if tg and all(t.kind == "repo" for t in tg):
+                out = frozenset()
+                for t in tg:
+                    g = t.ref
+                    if g in seen:
+                        continue
+                    rets = [n for n in iter_own_nodes(g.node) if isinstance(n, ast.Return) and n.value is not None]
+                    if not rets:
+                        return DATA
+                    for r in rets:
+                        d = dom(g, r.value, depth + 1, seen | {g})
+                        if not isinstance(d, frozenset):
+                            return DATA
+                        out |= d
+                return out
+            return DATA
+        if isinstance(e, ast.Name):
+            a = f.node.args
+            if a.kwarg is not None and a.kwarg.arg == e.id and not stores_to_name(f, e.id):
+                # additions to the **kw dict inside f
+                extra = _mutations(f, e.id, depth, seen)
+                if extra is DATA:
+                    return DATA
+                return ("KW", f, extra)
+            if e.id in f.params:
+                return DATA
+            if f.parent is not None and f.local_names() is not None and e.id not in f.local_names():
+                return dom(f.parent, e, depth + 1, seen)  # a closure variable of the enclosing function
+            vals = assigned_values(f, e.id)
+            if not vals or any(v is None for v in vals):
+                return DATA
+            keys = frozenset()
+            for v in vals:
+                d = dom(f, v, depth + 1, seen)
+                if not isinstance(d, frozenset):
+                    return DATA
+                keys |= d
+            extra = _mutations(f, e.id, depth, seen)
+            if extra is DATA:
+                return DATA
+            return keys | extra
+        return DATA
+
+    def _mutations(f, name, depth, seen):
+        keys = set()
+        for n in iter_own_nodes(f.node):
+            if isinstance(n, ast.Subscript) and isinstance(n.ctx, ast.Store) and isinstance(n.value, ast.Name) and n.value.id == name:
+                ok, val = ctx.try_fold(f, n.slice)
+                if not ok or not isinstance(val, str):
+                    return DATA
+                keys.add(val)
+            if isinstance(n, ast.Call) and isinstance(n.func, ast.Attribute) and isinstance(n.func.value, ast.Name) and n.func.value.id == name:
+                if n.func.attr == "update":
+                    for a_ in n.args:
+                        d = dom(f, a_, depth + 1, seen)
+                        if not isinstance(d, frozenset):
+                            return DATA
+                        keys |= d
+                    keys |= {k.arg for k in n.keywords if k.arg}
+                    if any(k.arg is None for k in n.keywords):
+                        return DATA
+                elif n.func.attr == "setdefault" and n.args:
+                    ok, val = ctx.try_fold(f, n.args[0])
+                    if not ok or not isinstance(val, str):
+                        return DATA
+                    keys.add(val)
+        return frozenset(keys)
+
+    sites = []
+    for f in funcs:
+        for s_ in ctx.cg.sites[f]:
+            n = s_.call
+            if n is None or not any(k.arg is None for k in n.keywords):
+                continue
+            if not s_.targets or any(t.kind not in ("repo", "class") for t in s_.targets):
+                continue  # caller-supplied callables: their binding errors are the caller's own
+            for t in s_.targets:
+                if t.kind == "class":
+                    gs = [(g, True) for g in [t.ref.find_method("__init__") or t.ref.find_method("__new__")] if g]
+                else:
+                    g = t.ref
+                    decs = _decorators(g)
+                    implicit = g.cls is not None and "staticmethod" not in decs and (t.detail not in ("static", "unbound") or "classmethod" in decs)
+                    gs = [(g, implicit)]
+                for g, implicit in gs:
+                    a = g.node.args
+                    pos = [x.arg for x in a.posonlyargs + a.args]
+                    npos = len([x for x in n.args if not isinstance(x, ast.Starred)]) + (1 if implicit else 0)
+                    if any(isinstance(x, ast.Starred) for x in n.args):
+                        npos = len(pos)
+                    B = (set(pos[:npos]) | {k.arg for k in n.keywords if k.arg}) & set(_kw_passable(g))
+                    for k in n.keywords:
+                        if k.arg is None:
+                            sites.append((f, n, g, B, k.value))
+    # fixed point of "which **kw parameters receive run-time-keyed data from inside the library"
+    changed = True
+    while changed:
+        changed = False
+        for f, n, g, B, x in sites:
+            if g.node.args.kwarg is None or kwdata.get(g):
+                continue
+            d = dom(f, x)
+            if d is DATA or (isinstance(d, tuple) and kwdata.get(d[1])):
+                kwdata[g] = True
+                changed = True
+    bad = 0
+    for f, n, g, B, x in sites:
+        d = dom(f, x)
+        coll = set()
+        if d is DATA:
+            coll = set(B)
+            what = "a dictionary whose keys are chosen at run time (message fields, extractor results)"
+        elif isinstance(d, frozenset):
+            coll = set(B) & d
+            what = "a dictionary with the keys %s" % sorted(d)
+        else:
+            if kwdata.get(d[1]):
+                coll = (set(B) - set(_kw_passable(d[1]))) | (set(B) & d[2])
+            what = "%s's **%s, which receives run-time-keyed fields from inside the library" % (d[1].fq, unparse(x))
+        key = "%s:%s->%s" % (f.fq, unparse(n.func), g.qualname)
+        if coll:
+            bad += 1
+            chk.bad("C07.splat", key + ":keyword-splat-cannot-collide", chk.where(f, n.lineno),
+                    "`%s` passes %s as **kwargs while %s is already bound in %s: a field of that name makes the logging call raise TypeError into the application"
+                    % (unparse(n)[:70], what, sorted(coll), g.fq))
+        else:
+            chk.ok("C07.splat", key + ":keyword-splat-cannot-collide", chk.where(f, n.lineno),
+                   "bound keyword-passable parameters %s cannot be named by the splatted dictionary (%s)" % (sorted(B), "literal keywords of the caller" if isinstance(d, tuple) and not kwdata.get(d[1]) else
+                                                                                                      "excluded by the enclosing signature / constant keys / positional-only receiver"))
+    chk.instances("C07.splat:keyword splats into repo callees", len(sites), 6)
+    chk.notes.append("C07.splat: **kw parameters that receive run-time-keyed data: %s" % sorted(g.fq for g in kwdata))
+
+
 def run(chk):
     rule_builtin_extractors(chk)
+    rule_splat(chk)
     common.rule_defaults(chk, "C07")
     from . import c10
     c10.rule_rich(chk)
@@ -441,3 +629,11 @@ def run(chk):
     rule_cycles(chk)
     from . import c03
     c03.rule_propagate(chk)
+    # "exceptions raised by application code inside actions propagate unchanged and return values are unchanged":
+    # for generator-based application code the actions live inside the repo's generator wrapper
+    from . import c15
+    cvar = c15.rule_ctx(chk)
+    if cvar:
+        gv, resumers = c15.rule_inside(chk, cvar)
+        if resumers and resumers[0] is not c15._wrapper(chk)[1]:
+            c15.rule_transparent(chk, cvar, gv, resumers)
